@@ -94,7 +94,7 @@ fn align2(rng: &mut Rng) {
     v.require(s1 <= s0 * (1.0 + 1e-9) + 1e-24 * size * size, "align2.sum_of_squares_not_larger_than_at_start", || format!("{s1:e} vs {s0:e}"));
     if small && smooth {
         let err = pts.iter().zip(&moved).map(|(p, m)| (t * m - p).norm()).fold(0.0, f64::max);
-        v.require(err <= 1e-6 * size, "align2.recovers_displacement", || format!("largest point error {err:e} (size {size}, n {n})"));
+        v.require(err <= 1e-6 * size, "align2.recovers_displacement", || format!("largest point error {err:e} (size {size}, n {n}, solver calls {}, ssq start {s0:e} end {s1:e})", trace.len()));
     }
     // replay of the solver's own call history on the real problem struct and on the model
     let xs: Vec<[f64; 3]> = trace.iter().filter(|(o, _)| *o == 0).map(|(_, x)| [x[0], x[1], x[2]]).collect();
@@ -209,12 +209,18 @@ fn sample3(rng: &mut Rng, mesh: &Mesh, n: usize, interior_only: bool) -> Vec<Poi
     let areas: Vec<f64> = f.iter().map(|t| (v[t[1] as usize] - v[t[0] as usize]).cross(&(v[t[2] as usize] - v[t[0] as usize])).norm()).collect();
     let total: f64 = areas.iter().sum();
     let mut out = vec![];
+    // the first points go face by face (every face is sampled, so that no degree of freedom of
+    // the alignment is left to chance), the rest by area
+    let mut forced = 0;
     while out.len() < n {
         let mut r = rng.unit() * total;
         let mut k = 0;
         while k + 1 < f.len() && r > areas[k] {
             r -= areas[k];
             k += 1;
+        }
+        if forced < 2 * f.len() && f.len() <= 12 {
+            k = forced % f.len();
         }
         let (mut a, mut b) = (rng.unit(), rng.unit());
         if a + b > 1.0 {
@@ -225,6 +231,7 @@ fn sample3(rng: &mut Rng, mesh: &Mesh, n: usize, interior_only: bool) -> Vec<Poi
             continue;
         }
         let t = f[k];
+        forced += 1;
         out.push(v[t[0] as usize] + (v[t[1] as usize] - v[t[0] as usize]) * a + (v[t[2] as usize] - v[t[0] as usize]) * b);
     }
     out
@@ -307,7 +314,7 @@ fn align3(rng: &mut Rng) {
     v.require((al.avg_residual() - mean).abs() <= 1e-15 * (1.0 + mean), "align3.avg_residual_is_mean", || "".into());
     if small {
         let err = pts.iter().zip(&moved).map(|(p, m)| (t * m - p).norm()).fold(0.0, f64::max);
-        v.require(err <= 1e-5 * size, "align3.recovers_displacement", || format!("largest point error {err:e} (size {size}, n {n}, plane={plane}, box={is_box})"));
+        v.require(err <= 1e-5 * size, "align3.recovers_displacement", || format!("largest point error {err:e} (size {size}, n {n}, plane={plane}, box={is_box}, solver calls {}, ssq start {s0:e} end {s1:e})", trace.len()));
     }
     let xs: Vec<Vec<f64>> = trace.iter().filter(|(o, _)| *o == 0).map(|(_, x)| x.clone()).collect();
     let mut probe = Probe3::new(&moved, &mesh, &initial, mode_of(plane));
